@@ -216,6 +216,10 @@ Inductive case :=
   (* one EPIC packet through the real router *)
 | CEpic (c : cfg) (now : N) (ing : ingress) (fulls : list full_entry) (emacs : list emac_entry)
         (ep : epic) (p : pkt) (impl : result) (changed : list N)
+  (* a packet with a SCION-type path that went through the SAME reused packet processor as the
+     EPIC packets around it (sequences: the processor must not carry state from one packet to
+     the next, so the stateless per-packet model has to predict every result) *)
+| CScion (c : cfg) (now : N) (ing : ingress) (macs : list mac_entry) (p : pkt) (impl : result)
   (* libepic.VerifyTimestamp(time.Unix(info_ts,0), epic_ts, now) = nil ? *)
 | CTs (info_ts epic_ts now : N) (accepted : bool)
   (* the input block of the EPIC MAC for these fields, as laid out by the harness's independent
@@ -226,6 +230,7 @@ Definition model (cs : case) : result :=
   match cs with
   | CEpic c now ing fulls emacs ep p _ _ =>
     process_epic (mac_lookup fulls) (emac_lookup emacs) c now ing ep p
+  | CScion c now ing macs p _ => process_scion (mac_lookup macs) c now ing p
   | _ => Done
   end.
 
@@ -233,6 +238,7 @@ Definition agree (cs : case) : bool :=
   match cs with
   | CConst k v => option_eqb N.eqb (const_value k) (Some v)
   | CEpic _ _ _ _ _ _ _ impl _ => result_eqb (model cs) impl
+  | CScion _ _ _ _ _ impl => result_eqb (model cs) impl
   | CTs its ets now acc => Bool.eqb (verify_timestamp its ets now) acc
   | CMacIn st its pts pctr ia raw pl bytes => list_eqb N.eqb (mac_input st its pts pctr ia raw pl) bytes
   end.
@@ -241,6 +247,7 @@ Definition oracle (cs : case) : bool :=
   match cs with
   | CEpic c now ing fulls emacs ep p impl changed =>
     c13_ok (mac_lookup fulls) (emac_lookup emacs) c now ing ep p impl && epic_hdr_untouched p impl changed
+  | CScion c _ ing _ p impl => c06_ok c ing p impl   (* link-type rules of the packet itself *)
   | CTs its ets now acc =>
     (* accepted => within [now - lifetime - skew, now + skew] *)
     negb acc ||
